@@ -61,6 +61,12 @@ check("C08", "exploration",
       "model-based property testing (rapid): reference model of the supervision effect table vs the real runtime, sequentially settled in virtual time",
       "DESIGN.md §4 C08")
 
+check("C09", "exploration",
+      "Generated failure plans (every decision and strategy, bursts with the failure at every position, concurrent failures, failing restart hooks) run on the real runtime in virtual time; at exact quiescence the mailbox pause flag and lifecycle state of every registered actor are read white-box, the queued burst is checked for conservation / order / delivery, probes sent afterwards must be handled, zombies must stay silent and be released by Kill.",
+      "Sampling of scenarios; 'stuck' is decided by synctest quiescence plus white-box state, not by a timeout. Concurrent-failure cases check only the schedule-independent clauses.",
+      "property-based testing (rapid) with history invariants and white-box state reads at a quiescence oracle, in virtual time",
+      "DESIGN.md §4 C09")
+
 NOT_YET = {}
 
 def main():
